@@ -218,6 +218,24 @@ def check_case(case):
             for x in roundtrips(p, exp, tol, "unit %s, %r:" % (unit, d0)):
                 x["unit"] = str(unit)
                 dis.append(x)
+            if unit == 1:
+                # the same path with every smooth joint made ALMOST smooth (the control 3e-8 off the reflection, far above the
+                # 12 digits that are written): a shorthand command would move it
+                p2 = svg.Path(d0)
+                prev, n2 = None, 0
+                for g in p2:
+                    if isinstance(g, svg.QuadraticBezier) and isinstance(prev, svg.QuadraticBezier) and g.control == prev.end * 2 - prev.control:
+                        g.control = svg.Point(g.control.x + 3e-8, g.control.y - 2e-8)
+                        n2 += 1
+                    elif isinstance(g, svg.CubicBezier) and isinstance(prev, svg.CubicBezier) and g.control1 == prev.end * 2 - prev.control2:
+                        g.control1 = svg.Point(g.control1.x - 2e-8, g.control1.y + 3e-8)
+                        n2 += 1
+                    prev = g
+                if n2:
+                    for x in roundtrips(p2, exp_of_path(p2), tol, "almost smooth joints, %r:" % d0):
+                        x["unit"] = "1"
+                        x["clause"] = "AlmostSmooth:" + x["clause"]
+                        dis.append(x)
         cls = ">".join(h[0] for h in hist)
         has_arc = any(h[0] in "aA" for h in hist)
     elif "arc" in case:
